@@ -498,7 +498,7 @@ def expected(c):
     x = key_of_tok(m[1])
     if x == 'offcurve':
         # an extended public key whose X is not on the curve is invalid; nothing may be derived from it
-        return 'ERR' if m[0] != 'derive' or parse_path(m[2]) not in (None, (False, []), (True, [])) else None
+        return 'ERR'
     if x is None:
         return 'ERR'
     if m[0] == 'derive':
